@@ -47,7 +47,21 @@ struct GSto {
 	bool operator==(const GSto & o) const { return tag == o.tag && v == o.v; }
 	bool operator<(const GSto & o) const { return tag < o.tag || (tag == o.tag && v < o.v); }
 };
-#if STORAGE == 2
+// a Storage with NEITHER == nor <, constructible from anything, that can tell the type of what it holds (as std::any can): ids are then equal
+// exactly when their digests are, whatever the stored values' types
+struct TSto {
+	uint32_t v; uint32_t tag;
+	TSto() : v(0), tag(0) {}
+	template <typename T> TSto(const T &) : v(0), tag(0xffffu) {}
+	TSto(const Val & x) : v(x.v), tag(x.tag) {}
+	TSto(const TSto &) = default;
+	uint32_t type() const { return tag; }
+	bool has_value() const { return true; }
+};
+#if STORAGE == 3
+using Id = eventpp::AnyId<Dig, TSto>;
+#define COMPARABLE_STORAGE 0
+#elif STORAGE == 2
 using Id = eventpp::AnyId<Dig, GSto>;
 #elif STORAGE
 using Id = eventpp::AnyId<Dig, Sto>;
@@ -107,7 +121,7 @@ extern "C" void harness()
 	vf_assert((! lac && ! lca) == ac, 168);
 	vf_assert(!((! lab && ! lba) && (! lbc && ! lcb)) || (! lac && ! lca), 176);   // incomparability is transitive (strict weak ordering)
 	vf_assert(! ab || std::hash<Id>()(a) == std::hash<Id>()(b), 169);   // equal ids hash equally
-#if STORAGE
+#if STORAGE && STORAGE != 3
 	vf_assert(ab == sameId(va, vb), 170);                  // colliding digests stay distinct ids; equal values are equal ids
 	if(fullDig(va) == fullDig(vb) && ! sameValue(va, vb)) vf_cover(COV_COLLISION);
 #else
@@ -153,7 +167,7 @@ extern "C" void harness()
 	default: d->dispatch(vd, arg); break;
 	}
 	// exactly the listeners registered under an id equal to the dispatched one, in registration order
-#if STORAGE
+#if STORAGE && STORAGE != 3
 	bool e1 = sameId(va, vd), e2 = sameId(vb, vd), e3 = sameId(vc, vd);
 #else
 	bool e1 = va.dig == vd.dig, e2 = vb.dig == vd.dig, e3 = vc.dig == vd.dig;
